@@ -46,7 +46,7 @@ theorem emitted_append (h h' : List (In ρ)) : ∀ s : State ρ,
 
 /-! ### the background loop and stop -/
 
-theorem step_spec (s : State ρ) :
+theorem step_spec (s : State ρ) (hr : v.resetOnError = true) :
     let x := step v Z C s
     x.1.settings = s.settings ∧ x.1.stopped = s.stopped ∧ directRecs x.2 = [] ∧
     (∀ p ∈ x.2, Built v Z C s.settings p) ∧
@@ -59,15 +59,15 @@ theorem step_spec (s : State ρ) :
   · rw [if_neg hs]
     cases hq : s.queue with
     | nil =>
-      obtain ⟨a1, a2, a3, _, _, a6, a7, a8, a9⟩ := sendAndClear_spec v Z C s
+      obtain ⟨a1, a2, a3, _, _, a6, a7, a8, a9⟩ := sendAndClear_spec v Z C s hr
       exact ⟨a1, a3, a7, a8, a9, [], by simp [a2, hq], by simp [a6]⟩
     | cons r q =>
-      obtain ⟨a1, a2, a3, _, a5, a6, a7, a8⟩ := appendRec_spec v Z C { s with queue := q } r
+      obtain ⟨a1, a2, a3, _, a5, a6, a7, a8⟩ := appendRec_spec v Z C { s with queue := q } r hr
       refine ⟨a1, a3, a6, a7, ?_, [r], ?_, a5⟩
       · intro hw; exact a8 hw
       · simp [a2]
 
-theorem stop_spec (s : State ρ) :
+theorem stop_spec (s : State ρ) (hr : v.resetOnError = true) :
     let x := stop v Z C s
     x.1.settings = s.settings ∧ directRecs x.2 = [] ∧
     (∀ p ∈ x.2, Built v Z C s.settings p) ∧
@@ -80,8 +80,8 @@ theorem stop_spec (s : State ρ) :
   · rw [if_neg hs]
     by_cases hd : v.drainOnStop = true
     · simp only [hd, if_true]
-      obtain ⟨b1, b2, _, _, b5, b6, b7, b8⟩ := drain_spec v Z C s.queue { s with queue := [] }
-      obtain ⟨a1, a2, _, _, _, a6, a7, a8, a9⟩ := sendAndClear_spec v Z C (drain v Z C { s with queue := [] } s.queue).1
+      obtain ⟨b1, b2, _, _, b5, b6, b7, b8⟩ := drain_spec v Z C s.queue hr { s with queue := [] }
+      obtain ⟨a1, a2, _, _, _, a6, a7, a8, a9⟩ := sendAndClear_spec v Z C (drain v Z C { s with queue := [] } s.queue).1 hr
       refine ⟨by rw [a1, b1], ?_, ?_, ?_, s.queue, ?_, ?_⟩
       · rw [directRecs_append, a7, b6]; rfl
       · intro p hp
@@ -101,7 +101,7 @@ theorem stop_spec (s : State ρ) :
       · show sharedRecs _ ++ (sendAndClear v Z C _).1.buf.reverse = _
         rw [sharedRecs_append, List.append_assoc, a6, b5]
     · simp only [hd, Bool.false_eq_true, if_false]
-      obtain ⟨a1, a2, _, _, _, a6, a7, a8, a9⟩ := sendAndClear_spec v Z C s
+      obtain ⟨a1, a2, _, _, _, a6, a7, a8, a9⟩ := sendAndClear_spec v Z C s hr
       refine ⟨a1, by simpa using a7, by simpa using a8, ?_, [], ?_, ?_⟩
       · intro hw
         obtain ⟨w, c⟩ := a9 hw
@@ -130,7 +130,7 @@ theorem directSent_cons (i : In ρ) (is : List (In ρ)) :
     directSent (i :: is) = directSent [i] ++ directSent is := by
   cases i <;> simp [directSent]
 
-theorem stepIn_inv (s : State ρ) (i : In ρ) :
+theorem stepIn_inv (s : State ρ) (i : In ρ) (hr : v.resetOnError = true) :
     ∃ d0 f0, d0 ++ (stepIn v Z C s i).1.queue = s.queue ++ acc0 s i ∧
       Interleave d0 (directAppends [i]) f0 ∧
       sharedRecs (stepIn v Z C s i).2 ++ (stepIn v Z C s i).1.buf.reverse = s.buf.reverse ++ f0 := by
@@ -140,13 +140,13 @@ theorem stepIn_inv (s : State ρ) (i : In ρ) :
     · simp only [stepIn, add, acc0]; split <;> simp
     · simp only [stepIn, add]; split <;> simp
   | step =>
-    obtain ⟨_, _, _, _, _, d0, h1, h2⟩ := step_spec v Z C s
+    obtain ⟨_, _, _, _, _, d0, h1, h2⟩ := step_spec v Z C s hr
     exact ⟨d0, d0, by simpa [stepIn, acc0] using h1, Interleave.left_only d0, h2⟩
   | stop =>
-    obtain ⟨_, _, _, _, d0, h1, h2⟩ := stop_spec v Z C s
+    obtain ⟨_, _, _, _, d0, h1, h2⟩ := stop_spec v Z C s hr
     exact ⟨d0, d0, by simpa [stepIn, acc0] using h1, Interleave.left_only d0, h2⟩
   | append r =>
-    obtain ⟨_, a2, _, _, a5, _⟩ := appendRec_spec v Z C s r
+    obtain ⟨_, a2, _, _, a5, _⟩ := appendRec_spec v Z C s r hr
     exact ⟨[], [r], by simpa [stepIn, acc0] using a2, Interleave.right_only [r], a5⟩
   | sendDirect rs =>
     obtain ⟨_, a2, _, a4, _, _, _, _, a9, _⟩ := sendDirect_spec v Z C s rs
@@ -155,22 +155,22 @@ theorem stepIn_inv (s : State ρ) (i : In ρ) :
   | applyConfig c =>
     exact ⟨[], [], by simp [stepIn, acc0], .nil, by simp [stepIn]⟩
 
-theorem stepIn_built (s : State ρ) (i : In ρ) : ∀ p ∈ (stepIn v Z C s i).2, Built v Z C s.settings p := by
+theorem stepIn_built (s : State ρ) (i : In ρ) (hr : v.resetOnError = true) : ∀ p ∈ (stepIn v Z C s i).2, Built v Z C s.settings p := by
   cases i with
   | add r => simp only [stepIn, add]; split <;> simp
-  | step => exact (step_spec v Z C s).2.2.2.1
-  | stop => exact (stop_spec v Z C s).2.2.1
-  | append r => exact (appendRec_spec v Z C s r).2.2.2.2.2.2.1
+  | step => exact (step_spec v Z C s hr).2.2.2.1
+  | stop => exact (stop_spec v Z C s hr).2.2.1
+  | append r => exact (appendRec_spec v Z C s r hr).2.2.2.2.2.2.1
   | sendDirect rs => exact (sendDirect_spec v Z C s rs).2.2.2.2.2.2.2.2.2.2.1
   | applyConfig c => simp [stepIn]
 
-theorem stepIn_WF (s : State ρ) (i : In ρ) (hw : WF C s) :
+theorem stepIn_WF (s : State ρ) (i : In ρ) (hr : v.resetOnError = true) (hw : WF C s) :
     WF C (stepIn v Z C s i).1 ∧ ∀ p ∈ (stepIn v Z C s i).2, p.count = p.recs.length := by
   cases i with
   | add r => simp only [stepIn, add]; split <;> exact ⟨hw, by simp⟩
-  | step => exact (step_spec v Z C s).2.2.2.2.1 hw
-  | stop => exact (stop_spec v Z C s).2.2.2.1 hw
-  | append r => exact (appendRec_spec v Z C s r).2.2.2.2.2.2.2 hw
+  | step => exact (step_spec v Z C s hr).2.2.2.2.1 hw
+  | stop => exact (stop_spec v Z C s hr).2.2.2.1 hw
+  | append r => exact (appendRec_spec v Z C s r hr).2.2.2.2.2.2.2 hw
   | sendDirect rs =>
     obtain ⟨_, _, _, a4, a5, a6, _, _, _, _, _, a12⟩ := sendDirect_spec v Z C s rs
     refine ⟨?_, a12⟩
@@ -179,13 +179,13 @@ theorem stepIn_WF (s : State ρ) (i : In ρ) (hw : WF C s) :
     rw [a4, a5, a6]; exact hw
   | applyConfig c => exact ⟨hw, by simp [stepIn]⟩
 
-theorem stepIn_direct (hne : ∀ r, C.enc r ≠ []) (s : State ρ) (i : In ρ) :
+theorem stepIn_direct (hne : ∀ r, C.enc r ≠ []) (s : State ρ) (i : In ρ) (hr : v.resetOnError = true) :
     directRecs (stepIn v Z C s i).2 = directSent [i] := by
   cases i with
   | add r => simp only [stepIn, add]; split <;> simp [directSent]
-  | step => exact (step_spec v Z C s).2.2.1
-  | stop => exact (stop_spec v Z C s).2.1
-  | append r => exact (appendRec_spec v Z C s r).2.2.2.2.2.1
+  | step => exact (step_spec v Z C s hr).2.2.1
+  | stop => exact (stop_spec v Z C s hr).2.1
+  | append r => exact (appendRec_spec v Z C s r hr).2.2.2.2.2.1
   | sendDirect rs =>
     have := (sendDirect_spec v Z C s rs).2.2.2.2.2.2.2.2.2.1 hne
     simpa [stepIn, directSent] using this
@@ -194,7 +194,7 @@ theorem stepIn_direct (hne : ∀ r, C.enc r ≠ []) (s : State ρ) (i : In ρ) :
 /-! ### whole histories -/
 
 /-- FIFO queue, no loss, no duplication, order per producer preserved -/
-theorem history_inv (h : List (In ρ)) : ∀ s : State ρ,
+theorem history_inv (h : List (In ρ)) (hr : v.resetOnError = true) : ∀ s : State ρ,
     ∃ deq fed, deq ++ (final v Z C s h).queue = s.queue ++ accepted v Z C s h ∧
       Interleave deq (directAppends h) fed ∧
       sharedRecs (emitted v Z C s h) ++ (final v Z C s h).buf.reverse = s.buf.reverse ++ fed := by
@@ -202,7 +202,7 @@ theorem history_inv (h : List (In ρ)) : ∀ s : State ρ,
   | nil => intro s; exact ⟨[], [], by simp [final_nil, accepted], .nil, by simp [emitted_nil, final_nil]⟩
   | cons i is ih =>
     intro s
-    obtain ⟨d0, f0, h1, h2, h3⟩ := stepIn_inv v Z C s i
+    obtain ⟨d0, f0, h1, h2, h3⟩ := stepIn_inv v Z C s i hr
     obtain ⟨d1, f1, g1, g2, g3⟩ := ih (stepIn v Z C s i).1
     refine ⟨d0 ++ d1, f0 ++ f1, ?_, ?_, ?_⟩
     · rw [final_cons, accepted_cons, List.append_assoc, g1, ← List.append_assoc, h1, List.append_assoc]
@@ -210,15 +210,15 @@ theorem history_inv (h : List (In ρ)) : ∀ s : State ρ,
     · rw [final_cons, emitted_cons, sharedRecs_append, List.append_assoc, g3, ← List.append_assoc, h3,
         List.append_assoc]
 
-theorem history_direct (hne : ∀ r, C.enc r ≠ []) (h : List (In ρ)) : ∀ s : State ρ,
+theorem history_direct (hne : ∀ r, C.enc r ≠ []) (h : List (In ρ)) (hr : v.resetOnError = true) : ∀ s : State ρ,
     directRecs (emitted v Z C s h) = directSent h := by
   induction h with
   | nil => intro s; rfl
   | cons i is ih =>
     intro s
-    rw [emitted_cons, directRecs_append, stepIn_direct v Z C hne, ih, ← directSent_cons]
+    rw [emitted_cons, directRecs_append, stepIn_direct v Z C hne _ _ hr, ih, ← directSent_cons]
 
-theorem history_built (h : List (In ρ)) : ∀ s : State ρ,
+theorem history_built (h : List (In ρ)) (hr : v.resetOnError = true) : ∀ s : State ρ,
     ∀ x ∈ (run v Z C s h).2, Built v Z C x.1 x.2 := by
   induction h with
   | nil => intro s x hx; simp [run] at hx
@@ -227,16 +227,16 @@ theorem history_built (h : List (In ρ)) : ∀ s : State ρ,
     rw [run_cons] at hx
     rcases List.mem_append.mp hx with h1 | h1
     · obtain ⟨p, hp, rfl⟩ := List.mem_map.mp h1
-      exact stepIn_built v Z C s i p hp
+      exact stepIn_built v Z C s i hr p hp
     · exact ih _ x h1
 
-theorem history_WF (h : List (In ρ)) : ∀ s : State ρ, WF C s →
+theorem history_WF (h : List (In ρ)) (hr : v.resetOnError = true) : ∀ s : State ρ, WF C s →
     WF C (final v Z C s h) ∧ ∀ p ∈ emitted v Z C s h, p.count = p.recs.length := by
   induction h with
   | nil => intro s hw; exact ⟨hw, by simp [emitted_nil]⟩
   | cons i is ih =>
     intro s hw
-    obtain ⟨w1, c1⟩ := stepIn_WF v Z C s i hw
+    obtain ⟨w1, c1⟩ := stepIn_WF v Z C s i hr hw
     obtain ⟨w2, c2⟩ := ih _ w1
     rw [final_cons, emitted_cons]
     refine ⟨w2, ?_⟩
@@ -245,11 +245,11 @@ theorem history_WF (h : List (In ρ)) : ∀ s : State ρ, WF C s →
     · exact c1 p h1
     · exact c2 p h1
 
-theorem emitted_built (h : List (In ρ)) (s : State ρ) :
+theorem emitted_built (h : List (In ρ)) (s : State ρ) (hr : v.resetOnError = true) :
     ∀ p ∈ emitted v Z C s h, ∃ st, Built v Z C st p := by
   intro p hp
   obtain ⟨x, hx, rfl⟩ := List.mem_map.mp hp
-  exact ⟨x.1, history_built v Z C h s x hx⟩
+  exact ⟨x.1, history_built v Z C h hr s x hx⟩
 
 end
 
